@@ -1,4 +1,4 @@
-import Chewing.Proofs.TrieBufHist
+import Chewing.Proofs.TrieBufSorted
 import Chewing.Proofs.SqliteDict
 /-!
 # C09 — Mutable dictionaries behave as a map under any update history
@@ -48,6 +48,14 @@ theorem triebuf_refines (init : State) (hi : init = initMem ∨ init = initFile)
     rw [abs_initMem] at this; exact this
   · have := run_refines inv_initFile ops hok
     rw [abs_initFile] at this; exact this
+
+/-- the pending list of the model is, in every reachable state, strictly increasing in the order of
+    `PhraseKey` — it is the iteration order of the `BTreeMap` it stands for -/
+theorem pending_sorted (init : State) (hi : init = initMem ∨ init = initFile) (ops : List Op) :
+    Sorted (run init ops).btree := by
+  rcases hi with rfl | rfl
+  · exact sorted_run (s := initMem) List.Pairwise.nil ops
+  · exact sorted_run (s := initFile) List.Pairwise.nil ops
 
 /-! ## 2. Answers -/
 
